@@ -22,9 +22,16 @@ META = {
             "reval/rm/rmpl), lifted over op lists; hence the best chain runs through non-failed blocks only. Inv_tree = Inv_flags "
             "+ S3 (a removed block is at VALID_UNKNOWN without ACTIVE/HAS_PAYLOADS and has only removed children) + the tips "
             "conjunct (tips = usable blocks without usable child) + level(block) <= level(parent) (connected => ancestors "
-            "connected) is ONE invariant Inv_all preserved by EVERY operation of both trees (no _partial). Not proved in the model: "
-            "ACTIVE <=> on the best chain and appliedBlockCount = |chain| (they need the unapply/apply loops of PopStateMachine::"
-            "setState related to the parent paths of both tips; invariants C1, C2 of the checker decide them on the implementation). The full "
+            "connected) is ONE invariant Inv_all preserved by EVERY operation of both trees (no _partial). ACTIVE <=> on the best "
+            "chain and appliedBlockCount = |chain| (invariants C1, C2 of the checker) are proved on the as-coded POP state machine "
+            "coq/Pop/SmDefs.v (applyBlock/unapplyBlock, the unapply/apply/rollback loops of PopStateMachine::setState, overrideTip, "
+            "comparePopScore) for EVERY state reachable by any history of connectBlock / setState / comparePopScore with any scorer, "
+            "failing and rolled-back walks included: a block is flagged applied iff it is on the chain root..tip - nothing off the "
+            "chain stays applied (C07_active_iff_on_chain, C07_off_chain_not_applied), appliedBlockCount = |chain| = number of "
+            "ACTIVE blocks (C07_applied_count_exact, C07_applied_set_is_chain), the chain is exactly the parent path root..tip "
+            "(C07_chain_is_parent_path, C07_parent_path_unique), with a reachable forked state as witness (C07_active_nonvacuous). "
+            "Not proved: the same two facts across invalidate/revalidate/removeSubtree/removePayloads/finalization, which the POP "
+            "machine model does not have; invariants C1, C2 of the checker decide them on the implementation. The full "
             "invariant list of harness/invariants.hpp (S1-S3 V1-V3 F1 T1 C1 C2 P1 P2 R1; ALT, VBK and BTC trees) is evaluated on the "
             "implementation after EVERY step of general honest histories with payloads and mempool activity and of the ALT/PoW model histories, which are "
             "also compared with the model per step",
